@@ -268,6 +268,9 @@ func TestC16Store(t *testing.T) {
 			claims := []claim{}
 			if present {
 				claims = append(claims, claim{append(bytes.Clone(val), 1), true, false, "wrong-value"}, claim{nil, false, false, "present-claimed-absent"})
+				if len(val) != 0 { // the empty value is a value like any other: (key, "") is not in the state
+					claims = append(claims, claim{nil, true, false, "nil-value-claimed"}, claim{[]byte{}, true, false, "empty-value-claimed"})
+				}
 			} else {
 				claims = append(claims, claim{[]byte{1}, true, false, "absent-claimed-present"})
 			}
